@@ -34,7 +34,7 @@ RULE = ("every public operation (all iterator tools and aggregations via seeded 
 ASSUMPTIONS = ["a loop that checks identity of every token and reply is at least as strict as any real event loop",
                "C functions called from asyncstdlib code are visible to sys.monitoring CALL events"]
 EXHAUSTIVE = {"quick": False, "thorough": False}
-N_SPECS = {"quick": 1400, "thorough": 40000}
+N_SPECS = {"quick": 5000, "thorough": 300000}
 MAX_SHARDS = 16
 
 ASYNCIO_CALLS = []
